@@ -35,11 +35,13 @@ RAW = {
                        {"name": "c", "in": "cookie", "schema": {"type": "string"}}],
         **{m: {"responses": {"200": {"description": "ok"}}} for m in ("get", "delete")},
         **{m: {"requestBody": {"content": {"text/plain": {"schema": {"type": "string"}}, "application/json": {"schema": {}},
-                                           "application/x-www-form-urlencoded": {"schema": {"type": "object"}}}},
+                                           "application/x-www-form-urlencoded": {"schema": {"type": "object"}},
+                                           "multipart/form-data": {"schema": {"type": "object", "properties": {
+                                               "a": {"type": "string"}, "b": {"type": "string"}}}}}},
                "responses": {"200": {"description": "ok"}}} for m in ("post", "put", "patch")},
     }},
 }
-METHOD = {"header": "GET", "query": "GET", "path": "DELETE", "cookie": "PATCH", "body": "POST", "json": "PUT", "form": "POST", "auth": "GET"}
+METHOD = {"engine-own": "GET", "engine-removed": "GET", "engine-overridden": "GET", "header": "GET", "query": "GET", "path": "DELETE", "cookie": "PATCH", "body": "POST", "json": "PUT", "form": "POST", "auth": "GET", "multipart": "POST"}
 SANITIZED_LEN = 2   # elements with strings up to this length are also printed with output sanitisation on
 _P: dict = {}
 
@@ -102,6 +104,8 @@ def case_kwargs(el: dict) -> dict:
         kw.update(body=s, media_type="text/plain")
     elif slot == "json":
         kw.update(body=s, media_type="application/json")
+    elif slot == "multipart":
+        kw.update(body={"a": s, "b": "z"}, media_type="multipart/form-data")   # text-only fields: a text payload
     else:
         kw.update(body={"k": s}, media_type="application/x-www-form-urlencoded")
     return kw
@@ -147,8 +151,79 @@ def observe(el: dict) -> dict:
     return out
 
 
+ENGINE_RAW = {
+    "openapi": "3.0.2", "info": {"title": "t", "version": "1"},
+    "components": {"securitySchemes": {"ApiKey": {"type": "apiKey", "in": "header", "name": "X-Access"}}},
+    "paths": {"/x/a": {"get": {"security": [{"ApiKey": []}], "responses": {"200": {"description": "ok"}, "401": {"description": "no"}}}}},
+}
+ID_HEADER = "x-schemathesis-testcaseid"
+
+
+def _always_fails(ctx, response, case):
+    raise AssertionError("verif: failure on the case's own request")
+
+
+def observe_engine(el: dict) -> dict:
+    """Run the real engine (fuzzing phase, one example) with explicit credentials and a configured header carrying the string; take
+    the code sample the engine attaches to the failure and the request the server recorded for the failing case id."""
+    import hypothesis
+    import schemathesis
+    from schemathesis.core.output import OutputConfig
+    from schemathesis.engine import from_schema
+    from schemathesis.engine.config import EngineConfig, ExecutionConfig, NetworkConfig
+    from schemathesis.engine.events import ScenarioFinished
+    from schemathesis.engine.phases import PhaseName
+    from schemathesis.specs.openapi.checks import ignored_auth
+
+    srv = _server()
+    auth = srv.base_url.split("://", 1)[1]
+    kind = el["slot"].split("-", 1)[1]
+    ok = (200, [("Content-Type", "application/json")], b"{}")
+    deny = (401, [("Content-Type", "application/json")], b"{}")
+    # removed: auth never enforced -> the no-credentials probe fails the check; overridden: any credential accepted -> the invalid-credentials
+    # probe fails it; own: a check that fails on the case's own response
+    srv.behaviour = (lambda rec: ok if rec.header("X-Access") is not None else deny) if kind == "overridden" else (lambda rec: ok)
+    srv.clear()
+    try:
+        schema = schemathesis.openapi.from_dict(json.loads(json.dumps(ENGINE_RAW)))
+        schema.configure(base_url=srv.base_url, output=OutputConfig(sanitize=False))
+        config = EngineConfig(
+            execution=ExecutionConfig(
+                phases=[PhaseName.FUZZING], checks=[_always_fails if kind == "own" else ignored_auth],
+                hypothesis_settings=hypothesis.settings(max_examples=1, deadline=None, database=None, derandomize=True),
+                generation=schema.generation_config),
+            network=NetworkConfig(headers={"X-Access": "letmein", "X-H": text(el["s"])}))
+        events = list(from_schema(schema, config=config).execute())
+    except Exception as exc:
+        return {"unsendable": "%s: %s" % (type(exc).__name__, str(exc)[:120])}
+    finally:
+        from .server import default_behaviour
+
+        srv.behaviour = default_behaviour
+    log = {}
+    for rec in srv.snapshot():
+        log[rec.header(ID_HEADER)] = rec
+    found = []
+    for event in events:
+        if isinstance(event, ScenarioFinished):
+            for case_id, checks in event.recorder.checks.items():
+                for check in checks:
+                    if check.failure_info is not None and case_id in log:
+                        parent = event.recorder.cases[case_id].parent_id
+                        found.append((parent is not None, check.failure_info.code_sample, log[case_id]))
+    # the failure this element is about: on a derived request for removed / overridden, on the own request otherwise
+    wanted = [f for f in found if f[0] == (kind != "own")]
+    if not wanted:
+        return {"unsendable": "the engine reported no %s failure (%d failures)" % (kind, len(found))}
+    derived, cmd, rec = wanted[0]
+    has_cred = rec.header("X-Access") is not None
+    if (kind == "removed" and has_cred) or (kind == "overridden" and (not has_cred or rec.header("X-Access") == "letmein")):
+        return {"unsendable": "the failing request is not the expected %s probe" % kind}
+    return {"cmd": cps(cmd.replace(auth, FIXED_AUTH)), "orig": project(rec, auth, False), "orig_full": project(rec, auth, True), "verify": True}
+
+
 def _work(el: dict) -> dict:
-    return observe(el)
+    return observe_engine(el) if el["slot"].startswith("engine-") else observe(el)
 
 
 def execute(cmd_cps: list[int]) -> dict:
@@ -441,7 +516,10 @@ def run(ctx: Ctx) -> Outcome:
     cmd_errors_outside = sum(1 for i, o in enumerate(observed) if "cmd_error" in o and not cases[i]["fragment"])
     # environment binding: execute a stratified sample with the real sh + curl
     n_exec = 150 if ctx.quick else 3000
-    picks = stratified(rng, [((cases[i]["slot"] + ":" + cases[i]["m"], features(cases[i])), i) for i, _ in sendable], n_exec)
+    # every engine-attached command is executed; the rest of the budget is stratified
+    forced = [i for i, _ in sendable if cases[i]["slot"].startswith("engine-")]
+    picks = forced + stratified(rng, [((cases[i]["slot"] + ":" + cases[i]["m"], features(cases[i])), i) for i, _ in sendable
+                                      if not cases[i]["slot"].startswith("engine-")], max(0, n_exec - len(forced)))
     t2 = time.time()
     execs = dict(zip(picks, common.pmap(_exec_work, [observed[i]["cmd"] for i in picks], chunk=4)))
     t_exec = time.time() - t2
@@ -519,7 +597,9 @@ def run(ctx: Ctx) -> Outcome:
         "evaluations": len(obs) + len(obs_s),
         "distinct_nontrivial": len({(cases[i]["slot"], cases[i]["m"], tuple(cases[i]["s"])) for i, _ in sendable if features(cases[i])}),
         "rule": "every element of Curl.tla's family under %s (TLC-enumerated strings over {a ' \" \\ $ ` space newline @ ; : & %%} in the "
-                "header-value, Authorization, query, path, cookie, text/JSON/form body slots); each built into a real case, sent, and its printed command "
+                "header-value, Authorization, query, path, cookie, text/JSON/form body slots; and in a configured header of real engine runs whose failure is on the "
+                "case's own request / on an ignored_auth probe with the credential removed / overridden - there the command is the engine's code sample and the "
+                "original is the request recorded for the failing case id); each built into a real case, sent, and its printed command "
                 "judged; plus empty / minimal payloads ({} and {k: a} as form, the empty text, {} [] null as JSON) for POST, PUT and PATCH; non-trivial = "
                 "the string contains a shell / curl significant character or is empty; strings of length <= %d are also printed with "
                 "output sanitisation on and compared up to [Filtered] values" % (cfg, SANITIZED_LEN),
@@ -533,6 +613,7 @@ def run(ctx: Ctx) -> Outcome:
         "strata_total": len({(cases[i]["slot"], cases[i]["m"], features(cases[i])) for i, _ in sendable}),
         "executed_slots": sorted({cases[i]["slot"] for i in picks}),
         "empty_or_minimal_payload_elements": sum(1 for c in cases if c["m"] != "-"),
+        "engine_attached_commands_judged": sum(1 for i, _ in sendable if cases[i]["slot"].startswith("engine-")),
         "model_matches_real_tools": sum(1 for v in verdicts if v["model"] == "T"),
         "model_indefinite_on_executed": sum(1 for v in verdicts if v["model"] == "U"),
         "executed_same_as_original": sum(1 for v in verdicts if v["exec"] == "T"),
@@ -558,7 +639,7 @@ def replay(ctx: Ctx, data: dict) -> Outcome:
     if data.get("kind") == "spec":
         return out
     el = data["element"]
-    o = observe(el)
+    o = _work(el)
     if "cmd" not in o:
         return out
     ob = {"cmd": o["cmd"], "orig": o["orig_full"], "hasExec": True, **execute(o["cmd"])}
